@@ -329,6 +329,17 @@ def run(ctx):
     seen = set()
     payloads = [p for p in payloads if not (" ".join(p) in seen or seen.add(" ".join(p)))]
     res = explore(ctx, binpath, drv, payloads)
+    # the same queries on the RELEASE build of the harness (the crate's debug_assert!s vanish: an impl whose only write sits inside
+    # one delivers garbage there) — the fixed payload set; a failing build of the release harness is reported, not fatal
+    relbin, relout = common.cargo_build_bin(ctx, "serdecorr", release=True)
+    if relbin is not None:
+        res_rel = explore(ctx, relbin, drv, fixed_payloads())
+        for r in res_rel:
+            r["q"] = r["q"] + "   [release profile]"
+        ctx.coverage["release_profile_queries"] = len(res_rel)
+        res = res + res_rel
+    else:
+        ctx.notes.append("release build of the serde harness failed: " + relout[-300:])
 
     viol = [r for r in res if r["monitor"]]
     dis = [r for r in res if r["disagree"]]
